@@ -1,0 +1,14 @@
+//go:build verif
+
+package cache
+
+// Verification hooks (build tag verif only).
+
+// VerifSetNow replaces the package clock (unix seconds) read by the in-memory ttl cache and
+// returns a function that restores the previous clock.  Not safe to call while caches are in use
+// by other goroutines; the replacement itself must be safe for concurrent calls.
+func VerifSetNow(f func() int64) (restore func()) {
+	var old = now
+	now = f
+	return func() { now = old }
+}
